@@ -11,6 +11,8 @@ EXTENDS BalanceOracle, TLC, Json
 
 CONSTANTS Members, Topics, MaxP, MaxOps, EmitCases, InitSmall,
           Kinds,          \* operation kinds allowed in chains
+          PartChoices,    \* partition counts allowed in initial shapes (subset of 1..MaxP)
+          MinMembers,     \* smallest group size of an initial shape
           AllSubscribeAll \* TRUE: every member subscribes to every topic (identical subscriptions family)
 
 -----------------------------------------------------------------------------
@@ -26,7 +28,8 @@ Init ==
   /\ sub \in [Members -> SUBSET Topics]
   /\ \A m \in Members : (m \in mem) <=> (sub[m] # {})
   /\ np \in [Topics -> 0..MaxP]
-  /\ \A t \in Topics : np[t] > 0          \* chains start with all topics existing
+  /\ \A t \in Topics : np[t] \in PartChoices   \* chains start with all topics existing
+  /\ Cardinality(mem) >= MinMembers
   /\ AllSubscribeAll => \A m \in mem : sub[m] = Topics
   /\ InitSmall => Cardinality(mem) = 1    \* simulation cfgs grow the group through Join operations
   /\ init0 = [mem |-> mem, sub |-> sub, np |-> np]
